@@ -46,7 +46,13 @@ def semSpec (progS : Sexp) (valsS : List Sexp) : Sexp :=
     let f : JsVal → Option Bool := match e with
       | .exclude a b => SubSpec.memExclude decls a b
       | .keyof a => SubSpec.memKeyof decls a
-      | .idx a k => fun v => (SubSpec.idxTy decls a k).bind fun t => Spec.mem decls 200 t v
+      -- bracket: a strict member (null ≠ undefined, as the type-level computation sees it) must be accepted, a value
+      -- outside the lenient reading of the validators (S1–S6) must be rejected, anything between is not judged
+      | .idx a k => fun v => (SubSpec.idxTy decls a k).bind fun t =>
+          match SubSpec.memR decls false 40 t v, Spec.mem decls 200 t v with
+          | some true, _ => some true
+          | _, some false => some false
+          | _, _ => none
     let noUnion := match e with
       | .exclude a _ => SubSpec.noObjectUnion decls 100 a
       | _ => true
